@@ -3,9 +3,9 @@
    recursive partials under the context-depth bookkeeping, the extends chain walk, Python frames per construct). *)
 From LiquidVerif Require Import Prelude Recover Recover_Proofs TagTree Terminate Terminate_Proofs.
 
-(* parsing: every loop of the parser consumes a token; with one unit of fuel more than there are tokens the model never
+(* parsing: every loop of the parser consumes a token; with one unit of fuel more than there are tokens (those inside liquid tags included) the model never
    runs out, in any mode and for any block nesting limit (unterminated and unbalanced blocks included) *)
-Theorem C09_parse_progress : forall m lim f ts, S (List.length ts) <= f -> parse_fuel m lim f ts <> OutOfFuel.
+Theorem C09_parse_progress : forall m lim f ts, S (tsize ts) <= f -> parse_fuel m lim f ts <> OutOfFuel.
 Proof. exact parse_progress. Qed.
 Print Assumptions C09_parse_progress.
 
